@@ -112,9 +112,23 @@ func realTakeoverScenario(r *vkit.R, g *vkit.Rand, N int) {
 		}
 	}
 	// the other identity takes every lease at once
-	leases := kube.CoordinationV1().Leases(ns)
+	// the harness reads and writes the leases through the object tracker, not through the clientset: its own accesses must
+	// not be counted by the reactor that counts the elections' polls
+	leaseGVR := coordinationv1.SchemeGroupVersion.WithResource("leases")
+	getLease := func(s int) (*coordinationv1.Lease, error) {
+		o, err := kube.Tracker().Get(leaseGVR, ns, leaseName(s))
+		if err != nil {
+			return nil, err
+		}
+		l, ok := o.(*coordinationv1.Lease)
+		if !ok {
+			return nil, fmt.Errorf("not a lease")
+		}
+		return l.DeepCopy(), nil
+	}
+	putLease := func(l *coordinationv1.Lease) error { return kube.Tracker().Update(leaseGVR, l, ns) }
 	holder := func(s int) string {
-		l, err := leases.Get(context.Background(), leaseName(s), metav1.GetOptions{})
+		l, err := getLease(s)
 		if err != nil || l.Spec.HolderIdentity == nil {
 			return ""
 		}
@@ -126,15 +140,14 @@ func realTakeoverScenario(r *vkit.R, g *vkit.Rand, N int) {
 		go func(s int) {
 			defer wg.Done()
 			for try := 0; try < 20; try++ { // the holder renews concurrently: retry on conflict
-				l, err := leases.Get(context.Background(), leaseName(s), metav1.GetOptions{})
+				l, err := getLease(s)
 				if err != nil {
 					continue
 				}
-				l = l.DeepCopy()
 				now, dur := metav1.NowMicro(), int32(3600)
 				o := other
 				l.Spec = coordinationv1.LeaseSpec{HolderIdentity: &o, RenewTime: &now, AcquireTime: &now, LeaseDurationSeconds: &dur, LeaseTransitions: l.Spec.LeaseTransitions}
-				if _, err := leases.Update(context.Background(), l, metav1.UpdateOptions{}); err == nil {
+				if err := putLease(l); err == nil {
 					return
 				}
 			}
@@ -148,12 +161,11 @@ func realTakeoverScenario(r *vkit.R, g *vkit.Rand, N int) {
 		for s := 0; s < N; s++ {
 			if holder(s) != other {
 				all = false
-				if l, err := leases.Get(context.Background(), leaseName(s), metav1.GetOptions{}); err == nil {
-					l = l.DeepCopy()
+				if l, err := getLease(s); err == nil {
 					now, dur := metav1.NowMicro(), int32(3600)
 					o := other
 					l.Spec.HolderIdentity, l.Spec.RenewTime, l.Spec.LeaseDurationSeconds = &o, &now, &dur
-					_, _ = leases.Update(context.Background(), l, metav1.UpdateOptions{})
+					_ = putLease(l)
 				}
 			}
 		}
@@ -166,6 +178,28 @@ func realTakeoverScenario(r *vkit.R, g *vkit.Rand, N int) {
 		return
 	}
 	r.Count("real_takeover_leases_taken", N)
+	// the new holder keeps renewing, as a live leader does: otherwise this server would consider the leases expired after its
+	// own lease duration (3 s after it last saw them change) and take them back in the middle of the judgement
+	renewCtx, renewCancel := context.WithCancel(context.Background())
+	defer renewCancel()
+	go func() {
+		t := time.NewTicker(500 * time.Millisecond)
+		defer t.Stop()
+		for {
+			select {
+			case <-renewCtx.Done():
+				return
+			case <-t.C:
+				for s := 0; s < N; s++ {
+					if l, err := getLease(s); err == nil && l.Spec.HolderIdentity != nil && *l.Spec.HolderIdentity == other {
+						now := metav1.NowMicro()
+						l.Spec.RenewTime = &now
+						_ = putLease(l)
+					}
+				}
+			}
+		}
+	}()
 
 	// wait (watchdog) until every election has ended its term and polled its lease three more times
 	if !vkit.WaitFor(60*time.Second, func() bool {
